@@ -127,6 +127,19 @@ add("C12", "BSTR+CH",
     "names from stated menus. That the renamed entity is importable/reachable and the wire shows the original is observed "
     "only through the C05 client harness (class_/from_), otherwise outside the claim.")
 
+add("C04", "BSTR+CH (+ concrete table diff)",
+    "BSTR symbolic execution of convert_uri_fieldnames / HttpRule body / Method.path_params; CrossHair on the emitted "
+    "required-default injection and on Method.query_params; concrete diff of the emitted http-option tables",
+    "Generator-side half of transcoding: for ALL identifiers within the bound the rule table rewrites only reserved "
+    "variable segments and the body; for ALL presence patterns of the query keys the emitted code adds exactly the typed "
+    "defaults of required scalar non-path non-body fields and the numeric-enum marker; for ALL (verb, path-variable "
+    "subset, body kind) query_params/path_params equal the reference split. The emitted option tables equal the rule "
+    "bindings in order (concrete diff, labelled as such).",
+    "DESIGN.md section 5 C04",
+    "URL expansion, query flattening, JSON encoding and reply parsing are api_core/protobuf/requests code and outside "
+    "the claim; json_format/json are pass-through stubs. Dotted path variables in path_params and defaults of "
+    "message/repeated required fields are outside the claim; the enum default is a recorded known finding (F7).")
+
 PENDING = {}
 
 
